@@ -440,7 +440,7 @@ def main():
         else:
             g.ir_path = out
     # ---- tasks
-    budget = a.budget or (900 if tier == 0 else 6 * 3600)
+    budget = a.budget or (1800 if tier == 0 else 6 * 3600)
     deadline = t_start + budget
     tasks = []
     for g in groups:
